@@ -182,7 +182,8 @@ pub fn contents<K: KeyT, V: ValT>(m: &M<K, V>) -> RefMap {
 pub fn lawful() -> bool {
     tape::with(|t| {
         let p = &t.p;
-        p.hash_mix.is_none()
+        !p.tainted
+            && p.hash_mix.is_none()
             && p.eq_mix.is_none()
             && p.hpanic.is_none()
             && p.epanic.is_none()
